@@ -1005,6 +1005,34 @@ fn real_connections(rep: &mut Report, seed: u64, round: usize, nconn: usize, nad
     drop(fx);
 }
 
+/// Connections whose set-up fails (a keepalive time the kernel rejects) are never open connections: once the clients
+/// have been turned away, every gauge the server shows must be zero.
+fn failed_setup_gauges(rep: &mut Report, round: usize) {
+    if !kernel_rejects_keepalive(KEEPALIVE_REJECTED) { rep.add_note("C36", "failed_setup_gauges_skipped", 1); return }
+    let mut fx = Fixture::start(|c| { c.rtr_client_metrics = true; c.rtr_tcp_keepalive = Some(Duration::from_secs(KEEPALIVE_REJECTED)); });
+    if fx.process_once(&slurm(&concrete(1)), true).is_err() { rep.divergence("C36", "failed set-ups: process_once failed"); return }
+    routinator::verif::set_rtr_setup_failures(None);
+    let port = fx.rtr_port;
+    let n = 3 + round % 4;
+    for k in 0..n {
+        let src = Ipv4Addr::new(127, 0, 77, 2 + (k % 2) as u8);
+        if let Ok(mut s) = connect_from(src, port) { let _ = rtr_query_on(&mut s, None, Duration::from_millis(800)); }
+    }
+    std::thread::sleep(Duration::from_millis(200));
+    rep.eval("C36");
+    let metrics = fx.rtr_metrics.clone();
+    let global = metrics.global().current_connections();
+    let per: Vec<(String, usize)> = metrics.clients().map(|l| l.iter().map(|(a, m)| (a.to_string(), m.current_connections())).collect()).unwrap_or_default();
+    let beh = json!({"kind": "failed-setups", "connections": n, "keepalive_secs": KEEPALIVE_REJECTED, "round": round});
+    if global != 0 || per.iter().any(|x| x.1 != 0) {
+        rep.violation("C36", "connections/nonzero-after-failed-setup",
+            format!("{n} connections were turned away at set-up (keepalive rejected) and are closed; the global gauge shows {global}, per address {per:?}"),
+            beh, json!({"global": global, "per_address": per}));
+    }
+    else { rep.nontrivial("C36", format!("failed-setups:{round}")); }
+    drop(fx);
+}
+
 fn c36(rep: &mut Report, args: &Args, behaviours: &[Value], shard: usize, nshards: usize) {
     let gate = Gate::install();
     for (idx, b) in behaviours.iter().filter(|b| b["kind"] == "registry").enumerate() {
@@ -1026,5 +1054,6 @@ fn c36(rep: &mut Report, args: &Args, behaviours: &[Value], shard: usize, nshard
         if round % nshards != shard { continue }
         let (nc, na) = match round % 3 { 0 => (6, 3), 1 => (9, 2), _ => (8, 4) };
         real_connections(rep, args.seed, round, nc, na);
+        if round % 3 == 0 { failed_setup_gauges(rep, round); }
     }
 }
